@@ -502,7 +502,12 @@ func c18Admin(c *Ctx, handlers map[string]*handlerInfo) {
 			if !ok || calleeName(&cl.Call) != "pkg/auth.(*User).HasPermission" || len(cl.Call.Args) < 3 {
 				return false
 			}
-			if !strings.Contains(desc(cl.Call.Args[0]), "getLoggedInUserdataFromCtx") || desc(cl.Call.Args[1]) != "param:r.Database" {
+			if !strings.Contains(desc(cl.Call.Args[0]), "getLoggedInUserdataFromCtx") {
+				return false
+			}
+			// the database argument is the Database field of the handler's request parameter (whatever its name)
+			fl, base := fieldOf(cl.Call.Args[1])
+			if _, isParam := base.(*ssa.Parameter); !isParam || !strings.HasSuffix(fl, ".Database") {
 				return false
 			}
 			return (succ == 0) == pol
